@@ -33,12 +33,35 @@ type C13 struct {
 	// the same, with the source name lower-cased
 	consumedFold map[originKey]foldSeen
 	bound        map[contractKey]uint64
-	nt           bool
+	// the same, with the hexadecimal digits of the contract address lower-cased (an Ethereum
+	// address is a number: 0xABC… and 0xabc… name one contract)
+	boundFold map[contractKey]foldBound
+	nt        bool
+}
+
+type foldBound struct {
+	batch    uint64
+	spelling string
+}
+
+// bind records contract -> batch; false (after a violation) if the same contract under another
+// letter case of its hexadecimal digits is already bound to another batch of the class.
+func (c *C13) bind(w *World, k contractKey, batch uint64, via string) bool {
+	fk := contractKey{k.Class, strings.ToLower(k.Contract)}
+	if p, ok := c.boundFold[fk]; ok && p.spelling != k.Contract && p.batch != batch {
+		w.Violate("R3", "contract-bound-to-two-batches/contract-differs-in-letter-case-only", "contract %s in class key %d is bound to batch key %d under the spelling %s, and %s binds it to batch key %d as well", k.Contract, k.Class, p.batch, p.spelling, via, batch)
+		return false
+	}
+	c.bound[k] = batch
+	if _, ok := c.boundFold[fk]; !ok {
+		c.boundFold[fk] = foldBound{batch, k.Contract}
+	}
+	return true
 }
 
 func init() {
 	RegisterChecker("C13", func() Checker {
-		return &C13{consumed: map[originKey]string{}, consumedFold: map[originKey]foldSeen{}, bound: map[contractKey]uint64{}}
+		return &C13{consumed: map[originKey]string{}, consumedFold: map[originKey]foldSeen{}, bound: map[contractKey]uint64{}, boundFold: map[contractKey]foldBound{}}
 	})
 }
 func (c *C13) ID() string { return "C13" }
@@ -52,6 +75,10 @@ func (c *C13) Init(w *World) {
 	}
 	for _, bc := range w.Cur.Contracts {
 		c.bound[contractKey{bc.ClassKey, bc.Contract}] = bc.BatchKey
+		fk := contractKey{bc.ClassKey, strings.ToLower(bc.Contract)}
+		if _, ok := c.boundFold[fk]; !ok {
+			c.boundFold[fk] = foldBound{bc.BatchKey, bc.Contract}
+		}
 	}
 }
 
@@ -153,7 +180,9 @@ func (c *C13) AfterTx(w *World, t *TxCtx) {
 					w.Violate("R3", "contract-bound-to-two-batches", "contract %s in class key %d is bound to batch %d and CreateBatch binds it again to batch %d", k.Contract, ck, other, b.Key)
 					return
 				}
-				c.bound[k] = b.Key
+				if !c.bind(w, k, b.Key, "CreateBatch") {
+					return
+				}
 			}
 		case *basetypes.MsgMintBatchCredits:
 			if msg.OriginTx == nil {
@@ -221,7 +250,9 @@ func (c *C13) AfterTx(w *World, t *TxCtx) {
 					w.Violate("R3", "unbound-contract-minted-into-existing-batch", "contract %s was not bound in class %s, yet the receipt went into the already existing batch %s", k.Contract, cl.Id, b.Denom)
 					return
 				}
-				c.bound[k] = b.Key
+				if !c.bind(w, k, b.Key, "BridgeReceive") {
+					return
+				}
 			}
 		case *basetypes.MsgBridge:
 			if !chainAllowed(pre, msg.Target) {
